@@ -66,6 +66,10 @@ def run(c):
     c.r1("commit-after-process_block", CH + "Chain::process_block_single", P + "process_block", sink=COMMIT, via=0)
     c.r1("commit-after-process_block_header", CH + "Chain::process_block_header", P + "process_block_header", sink=COMMIT, via=0)
     c.r1("commit-after-process_block_headers", CH + "Chain::sync_block_headers", P + "process_block_headers", sink=COMMIT, via=0)
+    c.r1("announce-after-commit", CH + "Chain::process_block_single", COMMIT, sink="grin_chain::types::ChainAdapter::block_accepted", via=0,
+         desc="process_block_single: the adapter learns about a block only after the batch committed")
+    c.r1("orphans-only-after-success", CH + "Chain::process_block", CH + "Chain::process_block_single", sink=CH + "Chain::check_orphans", via=0,
+         desc="Chain::process_block: orphans are re-processed only after the block itself was accepted")
     c.r1("block-saved-after-extension", P + "process_block", X + "extending", sink=P + "add_block", via=0)
     c.no_reach_cg("no-write-before-extension", [P + "check_known", P + "validate_pow_only", P + "prev_header_store", P + "validate_block"],
                   "re:grin_store::lmdb::Batch::(put|put_ser|delete)$", desc="the pipeline steps before the extension (other than storing the validated header) never write to the batch")
